@@ -186,7 +186,6 @@ def run(ctx):
         if node is not None:
             ctx.function_under_contract(MOD + ":" + q, mod.segment(node))
     rng = random.Random(ctx.seed)
-    Deb822 = real.Deb822
     rounds = 700 if ctx.tier == "quick" else 10000
     t = Tally(ctx, "B-02 dump -> re-parse in six input forms x armor x comments; single and multi-paragraph",
               "generated paragraphs of 1-4 fields over 8 valid names (incl. '#', '.', '_', digits in the name) with 10 kinds of "
@@ -194,6 +193,10 @@ def run(ctx):
               "lines with and without newlines, text and binary file object; plain and clearsigned; with and without interleaved "
               "comment lines; non-trivial = distinct (document, form, armor, comments)", "%d documents" % rounds)
     for _ in range(rounds):
+        # every paragraph class is a Deb822 paragraph; one round in five uses a derived class (none of the generated names is
+        # one of their structured fields)
+        Deb822 = real.Deb822 if rng.random() < 0.8 else getattr(real, rng.choice(["Packages", "Sources", "Dsc", "Changes", "Release",
+                                                                                  "BuildInfo", "Deb822Dict"][:6]))
         nparas = rng.choice([1, 1, 2, 3])
         paras = [gen_para(rng) for _ in range(nparas)]
         try:
@@ -224,9 +227,9 @@ def run(ctx):
                     try:
                         if nparas == 1:
                             got = [list(Deb822(mk()).items())]
-                            got_iter = [list(p.items()) for p in Deb822.iter_paragraphs(mk())]
+                            got_iter = [list(p.items()) for p in Deb822.iter_paragraphs(mk(), use_apt_pkg=False)]
                         else:
-                            got = got_iter = [list(p.items()) for p in Deb822.iter_paragraphs(mk())]
+                            got = got_iter = [list(p.items()) for p in Deb822.iter_paragraphs(mk(), use_apt_pkg=False)]
                     except Exception as e:
                         bad = t.failed("re-parse raised %r" % (e,), paragraphs=paras, form=fname, armor=armor, comments=comments,
                                        text=text)
